@@ -13,6 +13,7 @@ CONSTANTS Names = {"n1"}
           Depths = {1,2}
           MaxNow = 1
           MaxSeq = 2
+          Procs = {}
           Devs = {}
 INVARIANTS ChainResult RecursionErrorIffTooLong ReadYourPublish MinNonZeroTTL CacheCoherent DsRoutingAgree
            ExplicitSeqMustIncrease PublishStores CacheBounded
